@@ -3,6 +3,7 @@
    x faults.  A history variable records the environment's choices so that each complete
    behaviour can be replayed into the real code through a stubbed / fault-injecting solver seam. *)
 EXTENDS Solve
+MC_OptSets == {DefaultOpts}
 O(i, d, n) == [id |-> i, deg |-> d, nc |-> n]
 Cn(i, d, e) == [id |-> i, deg |-> d, eq |-> e, nc |-> FALSE]
 MC_MethodsAll == {"auto", "linprog", "highs", "highs-ds", "highs-ipm", "SLSQP", "trust-constr", "L-BFGS-B", "TNC", "COBYLA",
